@@ -1,11 +1,11 @@
 #!/bin/sh
 # usage: tools/r10_batch.sh <prop>...   each round-10 patch against the check of its own property; if missed, against C08 and C11
 for P in "$@"; do for K in 1 2; do
-  [ -f /tmp/r10out/$P/patch$K.diff ] || continue
-  echo "### $P patch$K: $(python3 -c "import json;print(json.load(open('/tmp/r10out/$P/meta$K.json'))['summary'][:150])")"
-  out=$(sh /verif/tools/try_patch.sh /tmp/r10out/$P/patch$K.diff $P 2>&1 | grep -E "^C[0-9]+:|clauses:|apply")
+  [ -f /tmp/${R:-r10}out/$P/patch$K.diff ] || continue
+  echo "### $P patch$K: $(python3 -c "import json;print(json.load(open('/tmp/${R:-r10}out/$P/meta$K.json'))['summary'][:150])")"
+  out=$(sh /verif/tools/try_patch.sh /tmp/${R:-r10}out/$P/patch$K.diff $P 2>&1 | grep -E "^C[0-9]+:|clauses:|apply")
   echo "$out"
   if echo "$out" | grep -q ": ok"; then
-    sh /verif/tools/try_patch.sh /tmp/r10out/$P/patch$K.diff C08 C11 2>&1 | grep -E "^C[0-9]+:|clauses:"
+    sh /verif/tools/try_patch.sh /tmp/${R:-r10}out/$P/patch$K.diff C08 C11 2>&1 | grep -E "^C[0-9]+:|clauses:"
   fi
 done; done
